@@ -148,10 +148,8 @@ class MetConfig:
             if isinstance(val, list):
                 list_fields[name] = len(val)
 
-        if not list_fields:
-            return  # all scalars, fine
-
-        lengths = set(list_fields.values())
+        # all scalars: a single step (timestamps are still checked below)
+        lengths = set(list_fields.values()) or {1}
         if len(lengths) > 1:
             raise ValueError(
                 f"Met timeseries arrays must all have the same length. "
